@@ -357,7 +357,8 @@ class OptimizeVI:
         if _draw_linear_residual is None:
             _draw_linear_residual = partial(
                 linear_minimizer_jit(
-                    draw_linear_residual, static_argnames=("jit_metric", "cg")
+                    draw_linear_residual,
+                    static_argnames=("jit_metric", "cg", "point_estimates"),
                 ),
                 likelihood,
                 jit_metric=jit if _is_no_jit(linear_minimizer_jit) else False,
@@ -366,7 +367,7 @@ class OptimizeVI:
             _nonlinearly_update_residual = partial(
                 nonlinear_minimizer_jit(
                     nonlinearly_update_residual,
-                    static_argnames=("jit_residual_funcs", "minimize"),
+                    static_argnames=("jit_residual_funcs", "minimize", "point_estimates"),
                 ),
                 likelihood,
                 jit_residual_funcs=(
